@@ -7,8 +7,8 @@ import Mathlib.Tactic.Positivity
 /-! Positivity of the likelihood recursion and of the FS-CRP joint density in both forms (used by
 C19 `weights_positive`): with positive likelihood values, `α > 0` and outlier priors in `[0,1)` no
 factor of `pMarg` / `pOne` / `pdfOf` vanishes, so no log-weight is `-inf`. -/
-namespace PhyModel
-open Finset Orders
+namespace PhyModel.C19P
+open Finset Orders PhyModel PhyModel.Density
 
 /-! ### lists -/
 
@@ -326,4 +326,4 @@ theorem countCode_pos (f : Orders.Forest) (m : ℕ) : 0 < countCode f m := by
   have h3 : (0 : ℚ) < (fact f.size : ℚ) := by exact_mod_cast fact_pos _
   exact mul_pos (mul_pos (mul_pos (prodCounts_pos f) (multinomial_pos _)) (div_pos h1 (mul_pos h2 h3))) h2
 
-end PhyModel
+end PhyModel.C19P
